@@ -68,6 +68,23 @@ func init() {
 				// applications that submit follow-up transactions from inside the commit callback
 				cfg.PCommitSubmit = 0.3
 			}
+			if r.Bool(0.3) {
+				// a short lopsided prefix (one rarely scheduled validator, truncated
+				// syncs), then the fair schedule: activity stops while the fame of some
+				// witness is still open and later rounds are already decided
+				cfg.N0 = []int{4, 4, 5}[r.Intn(3)]
+				cfg.Stores = make([]string, cfg.N0)
+				for i := range cfg.Stores {
+					cfg.Stores[i] = "inmem"
+				}
+				cfg.Steps = r.Range(12, 60)
+				cfg.Straggler = 1 + r.Intn(cfg.N0)
+				cfg.StragglerP = []float64{0.03, 0.1, 0.2}[r.Intn(3)]
+				cfg.PSilence = 0
+				cfg.PCrash = 0
+				cfg.PJoin, cfg.PLeave, cfg.MaxJoins, cfg.MaxLeaves = 0, 0, 0, 0
+				cfg.PSubmit = 0.25
+			}
 			return cfg
 		},
 		run: func(c *Cluster, spec *runSpec) {
@@ -454,6 +471,13 @@ func init() {
 					cfg.Variants = 14
 				}
 				withMembership(cfg, r, 0.3)
+				if cfg.N0 >= 4 && r.Bool(0.5) {
+					// a rarely scheduled validator: late witnesses, split votes, rounds
+					// whose fame is decided piecemeal
+					cfg.Straggler = 1 + r.Intn(cfg.N0)
+					cfg.StragglerP = []float64{0.03, 0.06, 0.1, 0.2}[r.Intn(4)]
+					cfg.PSilence = 0
+				}
 				if name == "C03" && r.Bool(0.4) {
 					cfg.Synthetic = true
 				}
